@@ -49,6 +49,21 @@ TIERS = {
 }
 
 
+def judge(prop, recs, res, kind, args, label, verdict):
+    """Turns the observer's findings on one trace into violations of `prop` or notes about other properties."""
+    for (idx, p, why) in res["violations"]:
+        a, b = vlib.run_of_record(recs, idx)
+        payload = dict(kind=kind, driver_args=[str(x) for x in args], record_index=idx,
+                       run_first_record=a + 1, trace=recs[a:b], violated_at=recs[idx - 1])
+        # C11: "other connections are affected only in the ways the protocol defines" is the conjunction of
+        # the other observers on arbitrary traffic, whenever the affected party is not the sender itself
+        c11 = prop == "C11" and (why.startswith("panic") or "(to another connection)" in why)
+        if prop in p.split("+") or c11:
+            verdict.violation(why if prop in p.split("+") else f"{why} [clause of {p}]", payload, site=json.dumps(recs[idx - 1].get("m", {}))[:200])
+        else:
+            verdict.note(f"violation of {p} observed while checking {prop}: {why} ({label}, record {idx})")
+
+
 def fuzz_and_validate(prop, tier, seed, verdict, cov):
     cfg = TIERS[tier]
     spec = PROPS[prop]
@@ -81,17 +96,7 @@ def fuzz_and_validate(prop, tier, seed, verdict, cov):
                             samples.append(dict(driver="fuzz-broker", profile=profile, seed=s, projected=list(sig)[:40]))
                         sigs.add(sig)
                     start = i
-            for (idx, p, why) in res["violations"]:
-                a, b = vlib.run_of_record(recs, idx)
-                payload = dict(kind="fuzz-broker", driver_args=[str(x) for x in args], record_index=idx,
-                               run_first_record=a + 1, trace=recs[a:b], violated_at=recs[idx - 1])
-                # C11: "other connections are affected only in the ways the protocol defines" is the conjunction of
-                # the other observers on arbitrary traffic, whenever the affected party is not the sender itself
-                c11 = prop == "C11" and (why.startswith("panic") or "(to another connection)" in why)
-                if prop in p.split("+") or c11:
-                    verdict.violation(why if prop in p.split("+") else f"{why} [clause of {p}]", payload, site=json.dumps(recs[idx - 1].get("m", {}))[:200])
-                else:
-                    verdict.note(f"violation of {p} observed while checking {prop}: {why} ({profile}, seed {s}, record {idx})")
+            judge(prop, recs, res, "fuzz-broker", args, f"{profile}, seed {s}", verdict)
             # conformance level: the same trace against the implementation-shaped specification
             conf = vlib.tlc_trace("Trace_Broker.tla", "Trace_Broker.cfg", trace)
             for (idx, why) in conf["drifts"]:
@@ -100,6 +105,116 @@ def fuzz_and_validate(prop, tier, seed, verdict, cov):
             cov["traces"] += 1
     cov["distinct_nontrivial"] = len(sigs)
     cov["samples"] = samples
+
+
+# specification -> implementation: behaviours enumerated by TLC from MC_Replay.tla, replayed on the real broker
+REPLAY = {"C02": "Calls", "C03": "Registry", "C04": "Events", "C05": "Channels", "C09": "Lifecycle", "C10": "Listeners",
+          "C11": "Abuse", "C12": "Versions"}
+REPLAY_TIERS = {
+    "quick": dict(exhaustive_cap=1500, sim=(250, 150), shards=4, workers=8, timeout=900),
+    "thorough": dict(exhaustive_cap=24000, sim=(3000, 200), shards=12, workers=12, timeout=3000),
+}
+
+
+def _split_runs(path, shards, wd, tag):
+    """Splits a trace at reset records into `shards` files of whole runs; returns [(path, first_index)]."""
+    lines = open(path).read().splitlines()
+    starts = [i for i, l in enumerate(lines) if '"t":"reset"' in l]
+    if not starts:
+        return []
+    per = max(1, (len(starts) + shards - 1) // shards)
+    out = []
+    for k in range(0, len(starts), per):
+        a = starts[k]
+        b = starts[k + per] if k + per < len(starts) else len(lines)
+        p = os.path.join(wd, f"{tag}-shard{k // per}.ndjson")
+        with open(p, "w") as f:
+            f.write("\n".join(lines[a:b]) + "\n")
+        out.append((p, a))
+    return out
+
+
+def _exhaustive_behaviours(name, wd, rt):
+    """The exhaustive enumeration depends on the specification only (not on /repo): it is cached under .work,
+    keyed by the text of the modules and the configuration."""
+    import hashlib
+    h = hashlib.sha256()
+    for fn in ("U32.tla", "Broker.tla", "Obs.tla", "MC_Broker.tla", "MC_Replay.tla", f"R_{name}.cfg"):
+        h.update(open(os.path.join(vlib.SPEC, fn), "rb").read())
+    cache = os.path.join(vlib.workdir("cache"), f"behaviours-R_{name}-{h.hexdigest()[:16]}.json")
+    if os.path.exists(cache):
+        try:
+            return dict(json.load(open(cache)), cached=True)
+        except Exception:
+            pass
+    ex = vlib.tlc_behaviours("MC_Replay.tla", f"R_{name}.cfg", os.path.join(wd, "tlc-exhaustive.out"), workers=rt["workers"], timeout=rt["timeout"])
+    os.remove(os.path.join(wd, "tlc-exhaustive.out"))
+    tmp = cache + f".{os.getpid()}.tmp"
+    json.dump(ex, open(tmp, "w"))
+    os.replace(tmp, cache)
+    return ex
+
+
+def spec_replay(prop, tier, seed, verdict, cov):
+    """TLC enumerates the behaviours of the bounded environment of MC_Replay.tla (exhaustively for the small
+    configuration, by simulation for the deeper one); each is replayed on the real broker; the recorded traces
+    are judged by the observers (VIOLATION) and by Broker.tla (DRIFT)."""
+    from concurrent.futures import ThreadPoolExecutor
+    name = REPLAY[prop]
+    rt = REPLAY_TIERS[tier]
+    wd = vlib.workdir(f"{prop}-{tier}-replay")
+    ex = _exhaustive_behaviours(name, wd, rt)
+    sim = vlib.tlc_behaviours("MC_Replay.tla", f"RS_{name}.cfg", os.path.join(wd, "tlc-simulate.out"), simulate=rt["sim"], seed=seed,
+                              timeout=rt["timeout"])
+    all_ex = ex["behaviours"]
+    stride = max(1, (len(all_ex) + rt["exhaustive_cap"] - 1) // rt["exhaustive_cap"])
+    chosen = all_ex[(seed - 1) % stride::stride] + sim["behaviours"]
+    bfile = os.path.join(wd, "behaviours.ndjson")
+    with open(bfile, "w") as f:
+        f.write("\n".join(chosen) + "\n")
+    trace = os.path.join(wd, "replay.ndjson")
+    args = ["--in", bfile, "--out", trace, "--seed", seed]
+    summ = vlib.run_driver("replay-broker", args)
+    recs = vlib.read_ndjson(trace)
+    shards = _split_runs(trace, rt["shards"], wd, "replay")
+
+    def one(sh):
+        p, off = sh
+        return off, vlib.tlc_trace("Trace_Obs.tla", "Trace_Obs.cfg", p), vlib.tlc_trace("Trace_Broker.tla", "Trace_Broker.cfg", p)
+
+    with ThreadPoolExecutor(max_workers=rt["shards"]) as pool:
+        results = list(pool.map(one, shards))
+    drifts = 0
+    for off, res, conf in results:
+        if not res["consumed"]:
+            raise vlib.ToolError(f"replay trace shard at {off} was not consumed by the observer")
+        res = dict(res, violations=[(idx + off, p, why) for (idx, p, why) in res["violations"]])
+        # the behaviour that produced a violating run goes into the replay file
+        for (idx, p, why) in res["violations"]:
+            a, _ = vlib.run_of_record(recs, idx)
+            run_no = recs[a].get("run") if recs[a].get("t") == "reset" else None
+            if run_no is not None and run_no < len(chosen):
+                recs[idx - 1] = dict(recs[idx - 1], behaviour=json.loads(chosen[run_no]))
+        judge(prop, recs, res, "spec-replay", args, "behaviour of MC_Replay.tla", verdict)
+        for (idx, why) in conf["drifts"]:
+            drifts += 1
+            if drifts <= 5:
+                log(f"DRIFT property={prop} the broker deviates from Broker.tla: {why} (replayed behaviour, record {idx + off})")
+    cov["drift"] += drifts
+    cov["replay"] = dict(
+        exhaustive=dict(config=f"R_{name}.cfg", behaviours=len(all_ex), states=ex["states"], complete=ex["complete"], wall_s=ex["wall_s"], cached=bool(ex.get("cached")),
+                        replayed=len(all_ex[(seed - 1) % stride::stride]), stride=stride),
+        simulated=dict(config=f"RS_{name}.cfg", behaviours=len(sim["behaviours"]), states=sim["states"], wall_s=sim["wall_s"]),
+        behaviours_replayed=summ.get("behaviours", 0), inputs=summ.get("inputs", 0), records=len(recs),
+        model_cookies_unbound=summ.get("unbound", 0), real_cookies_surplus=summ.get("surplus", 0),
+        stuck=summ.get("stuck", 0), panics=summ.get("panics", 0), drifts=drifts)
+    cov["records"] += len(recs)
+    if summ.get("unbound", 0) or summ.get("surplus", 0):
+        log(f"DRIFT property={prop} replay: {summ.get('unbound', 0)} cookie(s) the model issued but the broker did not, "
+            f"{summ.get('surplus', 0)} the other way round")
+    if tier == "quick" or not os.environ.get("VERIF_KEEP_WORK"):
+        for p, _ in shards:
+            os.remove(p)
 
 
 def real_clients(prop, tier, seed, verdict, cov):
@@ -228,6 +343,7 @@ def run(prop, tier, seed):
     vlib.build_harness(["broker-drivers", "bus-driver"])
     model_check(prop, tier, seed, verdict, cov)
     fuzz_and_validate(prop, tier, seed, verdict, cov)
+    spec_replay(prop, tier, seed, verdict, cov)
     real_clients(prop, tier, seed, verdict, cov)
     if prop == "C12":
         handshake(prop, tier, seed, verdict, cov)
@@ -250,6 +366,7 @@ def run(prop, tier, seed):
         client_version_payloads_to_old_clients=cov.get("client_version_payloads", 0),
         known_findings_reobserved=verdict.known,
         other_property_notes=verdict.notes[:10],
+        spec_to_impl_replay=cov.get("replay", {}),
     )
     if have_mc:
         coverage.update(states=cov["states"], transitions=cov["transitions"], mc=cov.get("mc", []))
